@@ -1,6 +1,7 @@
 /-
   Every world operation acts on the entity allocator only through three primitives applied to
-  live identifiers — `allocate`, `release`, `setLoc` — so any allocator predicate those primitives
+  live identifiers — `allocate`, `release`, `setLoc` — and by reordering the free queue (`clear`
+sorts the slots it freed), so any allocator predicate those primitives
   preserve is preserved by every world operation and every history (a simulation of world
   histories by allocator histories, in predicate-transformer form).  This lifts the allocator-level
   identifier theorems (C02) to worlds.
@@ -19,6 +20,8 @@ structure APres (P : Alloc → Prop) : Prop where
   release : ∀ {a a' : Alloc} {id : Ident}, AInv a → P a → Live a id → a.release id = .ok a' → P a'
   setLoc : ∀ {a a' : Alloc} {id : Ident} {loc : Loc}, AInv a → P a → Live a id →
     a.setLoc id loc = .ok a' → P a'
+  /-- reordering the free queue (what `clear` does to the slots it freed) -/
+  reorder : ∀ {a : Alloc} {free' : List Nat}, AInv a → P a → free'.Perm a.free → P { a with free := free' }
 
 theorem APres.batch {P : Alloc → Prop} (hp : APres P) {a a' : Alloc} {h start n : Nat} {ids : List Ident}
     (hi : AInv a) (pa : P a) (e : a.allocateBatch h start n = .ok (a', ids)) : P a' := by
@@ -170,21 +173,28 @@ theorem step_apres {P : Alloc → Prop} (hp : APres P) {w w' : World} (hi : Inv 
       exact hp.release hif pf ⟨l0, hl0⟩ hrel
   | clear order =>
     obtain ⟨d, e⟩ := fstOut_ok e
-    unfold World.clear at e
-    simp only [] at e
-    cases hfa : World.freeAll w.alloc ((w.visitOrder order).flatMap (·.ids)) with
-    | ub x => simp [hfa] at e
-    | ok al =>
-      simp only [hfa, Out.ok.injEq, Prod.mk.injEq] at e
-      obtain ⟨rfl, _⟩ := e
-      show P al
-      have hperm : ((w.visitOrder order).flatMap (·.ids)).Perm w.stored :=
-        List.Perm.flatMap_right _ (List.mergeSort_perm _ _)
-      refine hp.freeAll _ hi.ainv pa ?_ ?_ hfa
-      · intro y hy
-        obtain ⟨a, ha, r, hr⟩ := mem_stored (hperm.mem_iff.mp hy)
-        exact ⟨_, hi.row_live ha hr⟩
-      · exact (hperm.pairwise_iff (fun h => fun e' => h e'.symm)).mpr hi.stored_pairwise
+    obtain ⟨w0, e0, rfl⟩ := clear_eq e
+    obtain ⟨w0', d', hraw, hi0⟩ := clearRaw_inv hi order
+    rw [hraw] at e0
+    simp only [Out.ok.injEq, Prod.mk.injEq] at e0
+    obtain ⟨rfl, rfl⟩ := e0
+    have pal : P w0'.alloc := by
+      unfold World.clearRaw at hraw
+      simp only [] at hraw
+      cases hfa : World.freeAll w.alloc ((w.visitOrder order).flatMap (·.ids)) with
+      | ub x => simp [hfa] at hraw
+      | ok al =>
+        simp only [hfa, Out.ok.injEq, Prod.mk.injEq] at hraw
+        obtain ⟨rfl, _⟩ := hraw
+        show P al
+        have hperm : ((w.visitOrder order).flatMap (·.ids)).Perm w.stored :=
+          List.Perm.flatMap_right _ (List.mergeSort_perm _ _)
+        refine hp.freeAll _ hi.ainv pa ?_ ?_ hfa
+        · intro y hy
+          obtain ⟨a, ha, r, hr⟩ := mem_stored (hperm.mem_iff.mp hy)
+          exact ⟨_, hi.row_live ha hr⟩
+        · exact (hperm.pairwise_iff (fun h => fun e' => h e'.symm)).mpr hi.stored_pairwise
+    exact hp.reorder hi0.ainv pal (sortFreeFrom_perm _ _)
   | add id c v =>
     obtain ⟨d, e⟩ := fstOut_ok e
     unfold World.entryAdd at e
@@ -341,10 +351,10 @@ theorem run_apres {P : Alloc → Prop} (hp : APres P) (ops : List Op) :
 
 theorem apres_dead (x : Ident) : APres (fun a => Dead a x) :=
   ⟨fun _ d e => allocate_dead d e, fun _ d _ e => release_dead_other d e,
-   fun _ d hl e => setLoc_dead_other d hl e⟩
+   fun _ d hl e => setLoc_dead_other d hl e, fun _ d _ => d⟩
 
 theorem apres_ghost (issued : List Ident) : APres (fun a => Ghost a issued) := by
-  refine ⟨?_, fun _ g _ e => release_ghost g e, fun _ g _ e => setLoc_ghost g e⟩
+  refine ⟨?_, fun _ g _ e => release_ghost g e, fun _ g _ e => setLoc_ghost g e, fun _ g _ => g⟩
   intro a a' loc id _ g e
   have := allocate_ghost g e
   intro y hy
